@@ -32,7 +32,13 @@ fn require_all(rep: &mut Report, fams: &[&str]) {
 
 fn field_item<F: HasPrimeC>(name: &'static str) -> Item {
     Item::new(format!("field/{name}"), move |rep, _rng, _args| {
-        require_all(rep, FIELD_FAMILIES);
+        for f in FIELD_FAMILIES {
+            rep.require(f);
+            // the get_root_of_unity obligations are skipped for a field whose GENERATOR is a square
+            if *f != F_GETROOT {
+                rep.require_here(f);
+            }
+        }
         let c = F::prime_c();
         let mut ck = Ck::new(rep, name);
         check_prime_field(&mut ck, &c);
